@@ -23,7 +23,9 @@ ReadOk  == /\ IsEvent("read") /\ Ev.res = "ok" /\ Ev.outcome = "value"
            /\ reg[Ev.v] # "absent" /\ Ev.got = reg[Ev.v] /\ UNCHANGED reg
 ReadAbsent == /\ IsEvent("read") /\ Ev.res = "error" /\ Ev.outcome = "error"
               /\ reg[Ev.v] = "absent" /\ UNCHANGED reg
-Conform == Reset \/ WriteOk \/ ReadOk \/ ReadAbsent
+(* another store of the same kind is created, populated and written to in the same process: it is another store *)
+OtherStore == IsEvent("otherstore") /\ UNCHANGED reg
+Conform == Reset \/ WriteOk \/ ReadOk \/ ReadAbsent \/ OtherStore
 Deviate == /\ l <= Len(Trace) /\ ~ENABLED Conform
            /\ TLCSet(2, TLCGet(2) \cup {l})
            /\ l' = Ev.nx /\ reg' = [n \in Names |-> "absent"]
